@@ -155,6 +155,23 @@ fn monitor_one(ctx: &mut Ctx, class: &str, entry: &str, kt: KT, bytes: &[u8], rd
     if matches!(rd, RefOut::Unspec(_)) {
         ctx.count("unspecified-region");
     }
+    // sampled for the offline second opinion: a couple of inputs per (class, key type, outcome)
+    if !cfg!(miri) {
+        let bucket = format!("dec/{class}/{ktn}/{outcome}");
+        ctx.pytrace(&bucket, 1, || {
+            let mut v = json!({"t": "dec", "kt": ktn, "class": class, "input": hex(bytes), "lib": outcome, "ref": tag,
+                "ref_class": match rd { RefOut::Accept(_) => "accept", RefOut::Reject(_) => "reject", RefOut::Unspec(_) => "open", RefOut::NotOneItem(_) => "not-one-item" },
+                "remaining": out.remaining});
+            if let Ok(o) = &out.res {
+                v["seq"] = json!(o.seq.to_string());
+                v["node_id"] = json!(hex(&o.node_id));
+                v["pubkey"] = json!(hex(&o.pubkey));
+                v["sig"] = json!(hex(&o.sig));
+                v["text"] = json!(o.text);
+            }
+            v
+        });
+    }
 
     // ---------------- C02: accept <=> RefDecode accepts (one-item inputs, decisive only)
     if one_item && decisive {
